@@ -7,6 +7,8 @@ import (
 	"hash/fnv"
 	"math"
 	"math/bits"
+	"os"
+	"path/filepath"
 	"strings"
 
 	"pgregory.net/rapid"
@@ -101,6 +103,15 @@ func genOpts(t *rapid.T, e *Env, cfg HConfig, mono bool, p *Profile) OpenOpts {
 		o.Rollover = int64(rapid.IntRange(500, 900).Draw(t, "rollover"))
 	default:
 		o.Rollover = 1 << 20
+	}
+	if e != nil && e.Dir != "" && uni(t, 10, "exact_rollover") == 9 {
+		// the boundary itself: Rollover equal to the current size of the head's log file, or one byte off
+		if names, _ := listLogs(e.Dir); len(names) > 0 {
+			if fi, err := os.Stat(filepath.Join(e.Dir, names[len(names)-1])); err == nil && fi.Size() > 8 {
+				o.Rollover = fi.Size() + int64(pick(t, []int{-1, 0, 0, 1}, "exact_delta"))
+				e.St.Inc("reopen_with_rollover_at_head_size")
+			}
+		}
 	}
 	switch cfg.Single {
 	case 1:
